@@ -231,5 +231,23 @@ T:
 	}
 	swg.Wait()
 	say(fmt.Sprint("sorted:", sorted[0], sorted[1][0], sorted[2][5]))
+
+	// 9. range over a map whose keys have no order of their own (pointers, structs)
+	type item struct {
+		name string
+		n    int
+	}
+	pa, pb, pc := &item{"a", 1}, &item{"b", 2}, &item{"c", 3}
+	byPtr := map[*item]int{pa: 10, pb: 20, pc: 30}
+	byVal := map[item]string{{"x", 1}: "one", {"y", 2}: "two"}
+	sum, names := 0, []string{}
+	for p, v := range byPtr {
+		sum += v + p.n
+	}
+	for k := range byVal {
+		names = append(names, k.name)
+	}
+	sort.Strings(names)
+	say(fmt.Sprint("ptrmap:", sum, names))
 	return strings.Join(log, ";")
 }
